@@ -396,6 +396,11 @@ caf_read_header (SF_PRIVATE *psf)
 			psf_log_printf (psf, "Have 0 marker at position %D (0x%x).\n", pos, pos) ;
 			break ;
 			} ;
+		if (marker == data_MARKER && chunk_size == -1)
+		{	/* A 'data' chunk size of -1 means that the audio data runs to the end of the file. */
+			psf_log_printf (psf, "%M : -1 (to end of file)\n", marker) ;
+			chunk_size = psf->filelength - psf->header.indx ;
+			} ;
 		if (chunk_size < 0)
 		{	psf_log_printf (psf, "%M : %D *** Should be >= 0 ***\n", marker, chunk_size) ;
 			break ;
@@ -462,11 +467,7 @@ caf_read_header (SF_PRIVATE *psf)
 
 			case data_MARKER :
 				psf_binheader_readf (psf, "E4", &k) ;
-				if (chunk_size == -1)
-				{	psf_log_printf (psf, "%M : -1\n") ;
-					chunk_size = psf->filelength - psf->header.indx ;
-					}
-				else if (psf->filelength > 0 && chunk_size > psf->filelength - psf->header.indx + 10)
+				if (psf->filelength > 0 && chunk_size > psf->filelength - psf->header.indx + 10)
 				{	psf_log_printf (psf, "%M : %D (should be %D)\n", marker, chunk_size, psf->filelength - psf->header.indx - 8) ;
 					psf->datalength = psf->filelength - psf->header.indx - 8 ;
 					}
